@@ -161,6 +161,10 @@ func parseVal(s *Sexp) (*Val, error) {
 }
 
 // ToReflect stores v into rv (settable, of the Go type of t).
+// staleCapacity: slices are built with spare capacity that holds stale (non-zero)
+// elements, as a re-used `s = s[:n]` target has.
+var staleCapacity bool
+
 func (v *Val) ToReflect(rv reflect.Value, t *TyDef) (err error) {
 	defer func() {
 		if r := recover(); r != nil {
@@ -208,13 +212,18 @@ func (v *Val) ToReflect(rv reflect.Value, t *TyDef) (err error) {
 			rv.Set(reflect.Zero(rv.Type()))
 			return nil
 		}
-		s := reflect.MakeSlice(rv.Type(), len(v.L), len(v.L))
-		for i, e := range v.L {
-			if err := e.ToReflect(s.Index(i), t.Elem); err != nil {
+		n := len(v.L)
+		total := n
+		if staleCapacity {
+			total = 2*n + 1 // spare capacity behind the length, holding stale copies of the elements
+		}
+		s := reflect.MakeSlice(rv.Type(), total, total)
+		for i := 0; i < total; i++ {
+			if err := v.L[i%n].ToReflect(s.Index(i), t.Elem); err != nil {
 				return err
 			}
 		}
-		rv.Set(s)
+		rv.Set(s.Slice(0, n))
 		return nil
 	case "map":
 		if v.K == "mn" {
